@@ -64,6 +64,20 @@ def float_to_str_contract(prop, tier, seed):
                     s = fw.float_to_str(x)
                     evaluations += 1
                     bad = None
+                    # the three facts of the text model (pyvc/xmlmodel.py NumText, T1-T3) that the DEDUCTIVE float_to_str contract
+                    # (contracts/c01_f2s.py) assumes about str(float) / format(float, '.<d>f'), on the same floats
+                    sx, fx = str(x), Fraction(float(v))
+                    t3 = Fraction(format(x, ".%df" % d))
+                    if ("e" in sx) != (fx != 0 and (abs(fx) < Fraction(1, 10000) or abs(fx) >= 10 ** 16)):
+                        bad = "text model T1: exponent form of str(f) not as assumed"
+                    elif "e" not in sx and (sx.count(".") != 1 or float(sx) != float(v) or not PLAIN.fullmatch(sx)):
+                        bad = "text model T2: str(f) is not <digits>.<digits> denoting f"
+                    elif abs(t3 - fx) > Fraction(1, 2 * 10 ** d) or (abs(fx) >= 2 ** 53 and t3 != fx) or not PLAIN.fullmatch(format(x, ".%df" % d)):
+                        bad = "text model T3: format(f, '.%df') does not denote f rounded to %d decimals" % (d, d)
+                    if bad:
+                        if len(failures) < 5:
+                            failures.append({"input": repr(x), "type": conv.__name__, "decimals": d, "result": s, "clause": bad})
+                        continue
                     if not isinstance(s, str) or not PLAIN.fullmatch(s):
                         bad = "not plain decimal notation"
                     else:
@@ -84,7 +98,8 @@ def float_to_str_contract(prop, tier, seed):
         "name": "contract of file_writer_xml.float_to_str evaluated on the real function",
         "label": "bounded", "bound": "decimal precision 1..12 x %d floats (structured + %d seeded pseudo-random), as float and numpy.float64" % (len(vals), n),
         "evaluations": evaluations, "distinct_nontrivial": len(vals), "failures": len(failures),
-        "clauses": ["plain decimal text", "|value(text) - f| < 10^-d", "float(text) truncates towards zero outside the exponent range", "monotone in f"],
+        "clauses": ["plain decimal text", "|value(text) - f| < 10^-d", "float(text) truncates towards zero outside the exponent range", "monotone in f",
+                    "text model T1-T3 assumed by the deductive float_to_str contract: exponent form of str(f) <=> f != 0 and (|f| < 1e-4 or |f| >= 1e16); otherwise <digits>.<digits> denoting f; format(f, '.<d>f') denotes f rounded to d decimals"],
     }], "violations": []}
     if failures:
         relevant = [f for f in failures if (prop == "C03") == (f["clause"].startswith("not plain"))] or failures
